@@ -398,7 +398,9 @@ impl IntColBuffer {
         self.max = cmp::max(elem, self.max);
         if elem > self.last {
             self.increasing += 1;
-        } else if elem.checked_sub(self.last).is_none() {
+        }
+        // Every step has to fit i64, upwards as well as downwards
+        if !self.data.is_empty() && elem.checked_sub(self.last).is_none() {
             self.allow_delta_encode = false;
         };
         self.last = elem;
